@@ -33,7 +33,7 @@ ASSUMPTIONS = [
     "headers the server adds on its own (Transfer-Encoding, Connection, Content-Length, Date, Server) are not "
     "counted as 'set'; field values are compared up to runs of line breaks/spaces and surrounding whitespace",
 ]
-MIN = {"quick": {"evaluations": 28000, "nontrivial": 12000, "outcomes": 7},
+MIN = {"quick": {"evaluations": 32000, "nontrivial": 12000, "outcomes": 6},
        "thorough": {"evaluations": 200000, "nontrivial": 100000, "outcomes": 7}}
 
 NO_BODY = (204, 304)
